@@ -85,6 +85,13 @@ claim("C03", "other",
       "templ/*.pyx are loaded from source as Python so that they can be traced; the wikitext->node-tree parser (templ/parser.py, scanner.py, pp.py) and #time are outside; template universes are enumerated by the solver and expanded untraced; many cubes of string-heavy functions end INCONCLUSIVE within the quick budget.",
       "SMT-backed symbolic execution (CrossHair/z3) of the dispatch with symbolic arguments and a work-bound oracle; replay through the compiled expander", "§4 C03")
 
+claim("C04", "other",
+      "Bounded symbolic differential checking of integer #expr: expression trees of depth <= 2 (quick) / 3 (thorough) whose operator in every slot (+ - * mod = != < > <= >= and or not abs unary-minus), "
+      "single-digit literals and parenthesisation (minimal by the documented precedence / left association, or fully parenthesised) are z3 variables, are serialised to the tokenizer's token list and "
+      "evaluated by the real Expr.parse_expr; the value must equal a reference evaluator's on every path (240 cubes sharded by root and left operator, all exhausted in the quick tier). Counterexamples are replayed as '{{#expr: ...}}' through the real Expander.",
+      "The tokenizer regex is stubbed by its token list; floats (/, div, ^, round, floor, ceil, trunc, decimals) are outside (CrossHair models floats as reals); the binding / trimming / #if / #ifeq / #switch half of the property is NOT covered by this revision (the wikitext->node-tree parser is regex driven).",
+      "SMT-backed symbolic differential execution (CrossHair/z3) against a reference evaluator", "§4 C04")
+
 NA["C02"] = "structure law over the C++ scanner + 20 regex-driven passes: symbolic document shapes degenerate to enumerating concrete documents, no solver-decided bound of interest (DESIGN §5)"
 NA["C07"] = "losslessness is a law about document shapes x pass interactions: word identity, not word content, matters, so nothing in it is solver-relevant; making the shape symbolic degenerates into enumerating concrete documents (measured: the full 58-pass sequence under the tracer costs 0.7-4 s per path and no symbolic value reaches a branch), which is not this technique (DESIGN §4 C07)"
 NA["C08"] = "reportlab / odfpy / pdftk do the essential work (C code, floats, external processes); every input realizes immediately, nothing for a solver to decide (DESIGN §5)"
